@@ -122,6 +122,7 @@ func observe2(t *gen.Term, env real.EnvSpec, callEnv *real.EnvSpec, h *real.Host
 		p.Execs++
 	}
 	for _, b := range backends {
+		engine.Heartbeat()
 		bo := &BackendObs{Obs: real.Run2(b, h, p.Src, env, runEnv)}
 		p.Execs++
 		if bo.Obs.Val != nil {
